@@ -32,6 +32,6 @@ CHECKS['C20'] = {
         'an empty select list means "all fields" to the stub backends',
     ],
     'units': [
-        unit('list', 'federation_c20', '^TestVerifC20', {'shards': 8, 'checks': 2000}, {'shards': 16, 'checks': 600000, 'timeout': 3000}),
+        unit('list', 'federation_c20', '^TestVerifC20', {'shards': 16, 'checks': 2500}, {'shards': 16, 'checks': 600000, 'timeout': 3000}),
     ],
 }
